@@ -100,6 +100,11 @@ def op_dispatch(tree, src):
 
 
 def anchors(a: Anchors):
+    a.pure("converters_have_no_memory",
+           [("acryo/pipe/_transform.py", q) for q in ("shift", "gaussian_filter", "lowpass_filter", "highpass_filter", "center_by_mass")]
+           + [("acryo/pipe/_masking.py", q) for q in ("threshold_otsu", "dilation", "closing", "gaussian_smooth", "soft_otsu")]
+           + [("acryo/pipe/_imread.py", q) for q in ("from_array", "from_arrays", "from_gaussian", "from_atoms")],
+           "converter / provider bodies modify neither the image nor their (curried) parameters")
     a.fact("radd_is_self_plus_other", PC, "_Pipeline.__radd__", "return self + other", lambda fn: "returnself+other" in norm(ast.unparse(fn)))
     a.fact("rmul_is_self_times_other", PC, "_Pipeline.__rmul__", "return self * other", lambda fn: "returnself*other" in norm(ast.unparse(fn)))
     a.fact("rsub_is_neg_self_plus_other", PC, "_Pipeline.__rsub__", "return -self + other", lambda fn: "return-self+other" in norm(ast.unparse(fn)))
